@@ -7,7 +7,7 @@
    comb / fuel / the script [evs] quantify over every reader behaviour (arbitrary
    chunking, 0-byte reads, an error at any offset, data together with EOF/error).
    [matches_desc H dg sz bs] = length bs = sz /\ dg = alg:H alg bs /\ dg is a valid digest. *)
-From Oras Require Import Base.Prelude Generated.GC05 Model.Verify Proofs.Verify Proofs.VerifyComplete.
+From Oras Require Import Base.Prelude Generated.GC05 Model.Verify Proofs.Verify Proofs.VerifyComplete Proofs.VerifyProxy.
 
 (* ReadAll hands back data only when length and digest match and the reader held
    nothing else *)
@@ -239,6 +239,34 @@ Proof.
 Qed.
 Print Assumptions C05_visible_matches.
 
+(* cas.Proxy (NewProxy / NewProxyWithLimit over a cas.Memory cache; Fetch, any
+   sequence of Read sizes, Close; StopCaching on or off; the io.Pipe / drain protocol
+   between the TeeReader and the cache push): the cache only ever holds verified
+   content; what Fetch hands out is a prefix of the cached bytes (hit) or of the base
+   store's bytes (miss); with StopCaching or when the cache push fails (short, wrong,
+   trailing, malformed, too big) the cache is unchanged; when it is filled, it is
+   filled with bytes of the base that match the descriptor *)
+Theorem C05_proxy :
+  forall (H : str -> str -> str) limit stop m d comb evs ks rs ce m',
+    (forall d0 bs, mem_get m d0 = Some bs -> matches_desc H (d_dg d0) (d_sz d0) bs) ->
+    proxy_fetch H limit stop m d comb evs ks = ((rs, ce), m') ->
+    (forall d0 bs, mem_get m' d0 = Some bs -> matches_desc H (d_dg d0) (d_sz d0) bs) /\
+    match mem_get m d with
+    | Some bs =>
+        matches_desc H (d_dg d) (d_sz d) bs /\ m' = m /\ ce = None /\
+        exists rest, bs = concat (map fst rs) ++ rest
+    | None =>
+        (exists rest, stream evs = concat (map fst rs) ++ rest) /\
+        (stop = true -> m' = m /\ ce = None) /\
+        (ce <> None -> m' = m) /\
+        (m' = m \/
+         exists buf, m' = (d, buf) :: m /\ ce = None /\ matches_desc H (d_dg d) (d_sz d) buf /\
+                     (exists rest, stream evs = buf ++ rest) /\
+                     (limit = None -> buf = concat (map fst rs)))
+    end.
+Proof. exact proxy_fetch_spec. Qed.
+Print Assumptions C05_proxy.
+
 (* concurrent pushes into one OCI layout (any number of threads, any descriptors --
    in particular good and bad content under one digest --, any schedule of their
    Stat / CreateTemp / Write / Remove / Rename micro-steps): at every instant every
@@ -323,3 +351,12 @@ Example C05_ex_complete_hypotheses :
   toy_dg (stream evs) = digest_of toyH (alg_of (toy_dg (stream evs))) (stream evs) /\
   fst (copy_buffer toyH true true 20 (mkBase evs None) 1 (toy_dg (stream evs)) 3) = (None, [1;2;3]).
 Proof. vm_compute. repeat split; reflexivity. Qed.
+
+(* the proxy: a good fetch fills the cache, a second fetch is a hit, a trailing byte is refused *)
+Example C05_ex_proxy :
+  let d := mkDesc [] (toy_dg [1;2;3]) 3 in
+  let '((r1, c1), m1) := proxy_fetch toyH None false [] d false [Data [1;2]; Data [3]] [2; 5; 1]%nat in
+  let '((r2, c2), m2) := proxy_fetch toyH None false m1 d false [Data [9]] [5; 1]%nat in
+  let '((r3, c3), m3) := proxy_fetch toyH None false [] d false [Data [1;2;3;4]] [3; 5; 1]%nat in
+  (c1, m1, map fst r2, c2, c3, m3) = (None, [(d, [1;2;3])], [[1;2;3]; []], None, Some ETrailing, []).
+Proof. vm_compute. reflexivity. Qed.
